@@ -3,6 +3,8 @@
 package dig
 
 import (
+	"errors"
+	"fmt"
 	"math/rand"
 	"time"
 
@@ -38,4 +40,21 @@ func VerifMockClock() (Option, func(time.Duration)) {
 // shuffle value groups.
 func VerifSeedRand(seed int64) Option {
 	return setRand(rand.New(rand.NewSource(seed)))
+}
+
+// VerifCyclePath returns the functions ("package.Name" each) on the path
+// that a cycle rejection reports, in the reported order; ok is false when
+// err carries no cycle rejection.
+func VerifCyclePath(err error) (path []string, scope string, ok bool) {
+	var ce errCycleDetected
+	if !errors.As(err, &ce) {
+		return nil, "", false
+	}
+	for _, e := range ce.Path {
+		path = append(path, fmt.Sprintf("%v.%v", e.Func.Package, e.Func.Name))
+	}
+	if ce.scope != nil {
+		scope = ce.scope.name
+	}
+	return path, scope, true
 }
